@@ -4,6 +4,7 @@ import operator
 from functools import reduce
 from typing import Any
 
+import numpy as np
 from jax import numpy as jnp
 from jax import random as jr
 from jaxtyping import Array, ArrayLike, Bool, Float, Key
@@ -121,7 +122,10 @@ class Box(AbstractSpace[Float[Array, " ..."], None]):
         return f"Box(low={self.low}, high={self.high})"
 
     def __hash__(self) -> int:
-        return hash((self.low.tobytes(), self.high.tobytes()))
+        # adding +0.0 maps -0.0 to +0.0, so that spaces that compare equal hash equal
+        low = np.asarray(self.low) + 0.0
+        high = np.asarray(self.high) + 0.0
+        return hash((low.tobytes(), high.tobytes()))
 
     def flatten_sample(self, sample: Float[Array, " ..."]) -> Float[Array, " n"]:
         return jnp.asarray(sample, dtype=float).ravel()
